@@ -273,7 +273,10 @@ theorem Up.swapup_sound (e : Up) : ∀ (c c' : Sq) (e' : Up), e.wf = true → c.
           subst hn2
           have hfd' : e1'.fd = 0 := by simpa [Sq.dim] using sp.fde
           refine ⟨?_, ?_, ?_, ?_, ?_, ?_, ?_⟩
-          · simp [Sq.wf, Sq.dim, sp.wfc, hwc.1.1.1, hwc.1.1.2, hwc.1.2, hwc.2]; have := sp.dimc; omega
+          · have := sp.dimc
+            simp only [Sq.wf, Bool.and_eq_true, decide_eq_true_eq]
+            simp only [Sq.dim]
+            exact ⟨⟨⟨sp.wfc, hwc⟩, by omega⟩, by omega⟩
           · simp [Up.wf, sp.wfe]; omega
           · simp [Sq.dim, Up.td, sp.dimc]
           · simp [Up.td, Sq.dim, sp.tde]
@@ -307,7 +310,10 @@ theorem Up.swapup_sound (e : Up) : ∀ (c c' : Sq) (e' : Up), e.wf = true → c.
         subst hn2
         have hfd' : e1'.fd = 0 := by simpa [Sq.dim] using sp.fde
         refine ⟨?_, ?_, ?_, ?_, ?_, ?_, ?_⟩
-        · simp [Sq.wf, Sq.dim, sp.wfc, hwc.1, hwc.2]; have := sp.dimc; omega
+        · have := sp.dimc
+          simp only [Sq.wf, Bool.and_eq_true, decide_eq_true_eq]
+          simp only [Sq.dim]
+          exact ⟨⟨⟨sp.wfc, hwc⟩, by omega⟩, by omega⟩
         · simp [Up.wf, sp.wfe]; omega
         · simp [Sq.dim, Up.td, sp.dimc]
         · simp [Up.td, sp.tde]
@@ -374,7 +380,10 @@ theorem Up.swapup_sound (e : Up) : ∀ (c c' : Sq) (e' : Up), e.wf = true → c.
           subst hn1
           have hfd' : e2'.fd = 0 := by simpa [Sq.dim] using sp.fde
           refine ⟨?_, ?_, ?_, ?_, ?_, ?_, ?_⟩
-          · simp [Sq.wf, Sq.dim, sp.wfc, hwc.1.1.1, hwc.1.1.2, hwc.1.2, hwc.2]; have := sp.dimc; omega
+          · have := sp.dimc
+            simp only [Sq.wf, Bool.and_eq_true, decide_eq_true_eq]
+            simp only [Sq.dim]
+            exact ⟨⟨⟨hwc, sp.wfc⟩, by omega⟩, by omega⟩
           · simp [Up.wf, sp.wfe]; omega
           · simp [Sq.dim, Up.td, sp.dimc]
           · simp [Up.td, Sq.dim, sp.tde]
@@ -413,7 +422,10 @@ theorem Up.swapup_sound (e : Up) : ∀ (c c' : Sq) (e' : Up), e.wf = true → c.
         subst hn1
         have hfd' : e2'.fd = 0 := by simpa [Sq.dim] using sp.fde
         refine ⟨?_, ?_, ?_, ?_, ?_, ?_, ?_⟩
-        · simp [Sq.wf, Sq.dim, sp.wfc, hwc.1, hwc.2]; have := sp.dimc; omega
+        · have := sp.dimc
+          simp only [Sq.wf, Bool.and_eq_true, decide_eq_true_eq]
+          simp only [Sq.dim]
+          exact ⟨⟨⟨hwc, sp.wfc⟩, by omega⟩, by omega⟩
         · simp [Up.wf, sp.wfe]; omega
         · simp [Sq.dim, Up.td, sp.dimc]
         · simp [Up.td, sp.tde]
@@ -440,5 +452,243 @@ theorem Up.swapup_sound (e : Up) : ∀ (c c' : Sq) (e' : Up), e.wf = true → c.
     | identity _ => simp [Up.swapup] at h
     | index _ _ => simp [Up.swapup] at h
     | generic _ _ => simp [Up.swapup] at h
+
+/-- what `e.swapdown(c) = (e', c')` guarantees -/
+structure SwapDownSpec (e : Up) (c : Sq) (e' : Up) (c' : Sq) : Prop where
+  wfe : e'.wf = true
+  wfc : c'.wf = true
+  tde : e'.td = c.dim
+  dimc : c'.dim = e.fd
+  fde : e'.fd = c'.dim
+  flip : (e'.flip != c'.flip) = (c.flip != e.flip)
+  app : ∀ x : Vec, x.length = e.fd → e'.app (c'.app x) = c.app (e.app x)
+
+theorem Sq.flip_of_dim_zero (s : Sq) (hw : s.wf = true) (hd : s.dim = 0) : s.flip = false := by
+  cases s with
+  | identity _ => rfl
+  | index _ _ => rfl
+  | simplexChild n k =>
+    simp only [Sq.dim] at hd; subst hd
+    simp only [Sq.wf, Bool.and_eq_true, decide_eq_true_eq] at hw
+    have : k = 0 := by omega
+    subst this; decide +kernel
+  | tensorChild a b =>
+    simp only [Sq.wf, Bool.and_eq_true, decide_eq_true_eq] at hw
+    simp only [Sq.dim] at hd; omega
+  | generic lin off =>
+    simp only [Sq.dim] at hd
+    simp only [Sq.wf] at hw
+    have hl := ((matShape_iff _ _ _).1 hw).1
+    have : lin = [] := by
+      cases lin with
+      | nil => rfl
+      | cons _ _ => simp [hd] at hl
+    subst this; simp [Sq.flip, det]
+
+theorem fallback_spec (e : Up) (c : Sq) (hwe : e.wf = true) (hwc : c.wf = true) (hd : c.dim = e.td) :
+    SwapDownSpec e c (.scaledUpdim c e) (.identity e.fd) := by
+  refine ⟨?_, rfl, rfl, rfl, rfl, ?_, ?_⟩
+  · simp [Up.wf, hwe, hwc, hd]
+  · simp [Up.flip, Sq.flip]
+  · intro x _; simp [Up.app, Sq.app]
+
+theorem Up.swapdown_sound (e : Up) : ∀ (c : Sq) (e' : Up) (c' : Sq), e.wf = true → c.wf = true → c.dim = e.td →
+    e.swapdown c = some (e', c') → SwapDownSpec e c e' c' := by
+  induction e with
+  | simplexEdge n ie inv =>
+    intro c e' c' hwe hwc hd h
+    cases c with
+    | simplexChild m ic =>
+      simp only [Up.swapdown, Option.map_eq_some_iff] at h
+      obtain ⟨⟨r, col⟩, hf, heq⟩ := h
+      simp only [Prod.mk.injEq] at heq
+      obtain ⟨rfl, rfl⟩ := heq
+      simp only [Up.wf, Sq.wf, Bool.and_eq_true, decide_eq_true_eq] at hwe hwc
+      simp only [Up.td, Sq.dim] at hd
+      subst hd
+      have hok := swapTab_down m (by omega) hwe.1.1 ic hwc.2 ie (by omega)
+      simp only [swapDownOK, hf, Bool.and_eq_true, decide_eq_true_eq, beq_iff_eq] at hok
+      obtain ⟨⟨⟨⟨hr, hcol⟩, _⟩, hfl⟩, _⟩ := hok
+      refine ⟨?_, ?_, rfl, rfl, rfl, ?_, ?_⟩
+      · simp [Up.wf]; omega
+      · simp [Sq.wf]; omega
+      · simp only [Sq.flip, Up.flip]
+        revert hfl
+        cases (edgeAff m r).2.2 <;> cases (childAff (m-1) col).2.2 <;> cases (childAff m ic).2.2 <;> cases (edgeAff m ie).2.2 <;> cases inv <;> simp
+      · intro x _
+        simp only [Sq.app, Up.app]
+        exact simplex_swapdown_app (by omega) hwe.1.1 hwc.2 (by omega) hf x
+    | identity _ => simp [Up.swapdown] at h
+    | index _ _ => simp [Up.swapdown] at h
+    | tensorChild _ _ => simp [Up.swapdown] at h
+    | generic _ _ => simp [Up.swapdown] at h
+  | scaledUpdim c0 e0 _ =>
+    intro c e' c' hwe hwc hd h
+    cases c with
+    | tensorChild a b =>
+      simp only [Up.swapdown, Option.some.injEq, Prod.mk.injEq] at h
+      obtain ⟨rfl, rfl⟩ := h
+      exact fallback_spec _ _ hwe hwc hd
+    | identity _ => simp [Up.swapdown] at h
+    | index _ _ => simp [Up.swapdown] at h
+    | simplexChild _ _ => simp [Up.swapdown] at h
+    | generic _ _ => simp [Up.swapdown] at h
+  | generic lin off f =>
+    intro c e' c' hwe hwc hd h
+    cases c with
+    | tensorChild a b =>
+      simp only [Up.swapdown, Option.some.injEq, Prod.mk.injEq] at h
+      obtain ⟨rfl, rfl⟩ := h
+      exact fallback_spec _ _ hwe hwc hd
+    | identity _ => simp [Up.swapdown] at h
+    | index _ _ => simp [Up.swapdown] at h
+    | simplexChild _ _ => simp [Up.swapdown] at h
+    | generic _ _ => simp [Up.swapdown] at h
+  | tensorEdge1 e1 n2 ih =>
+    intro c e' c' hwe hwc hd h
+    have hwe' := hwe
+    simp only [Up.wf, Bool.and_eq_true, decide_eq_true_eq] at hwe
+    have htd := Up.td_eq e1 hwe.1
+    cases c with
+    | tensorChild a b =>
+      have hwc' := hwc
+      simp only [Sq.wf, Bool.and_eq_true, decide_eq_true_eq] at hwc
+      simp only [Up.td, Sq.dim] at hd
+      simp only [Up.swapdown] at h
+      split at h
+      · rename_i hat
+        split at h
+        · rename_i edge child hs
+          simp only [Option.some.injEq, Prod.mk.injEq] at h
+          obtain ⟨rfl, rfl⟩ := h
+          have sp := ih a edge child hwe.1 hwc.1.1.1 hat hs
+          have hn2 : n2 = b.dim := by omega
+          subst hn2
+          by_cases hc0 : child.dim = 0
+          · simp only [hc0, ne_eq, not_true_eq_false, if_false]
+            have hfl0 := Sq.flip_of_dim_zero child sp.wfc hc0
+            have he1 : e1.fd = 0 := by rw [← sp.dimc]; exact hc0
+            refine ⟨?_, hwc.1.1.2, ?_, ?_, ?_, ?_, ?_⟩
+            · simp [Up.wf, sp.wfe]; omega
+            · simp [Up.td, Sq.dim, sp.tde]
+            · simp [Up.fd, he1]
+            · simp [Up.fd, sp.fde, hc0]
+            · simp only [Sq.flip, Up.flip]
+              have := sp.flip
+              rw [hfl0] at this
+              revert this; cases edge.flip <;> cases e1.flip <;> cases a.flip <;> cases b.flip <;> simp
+            · intro x hx
+              have hca : (child.app []).length = 0 := by rw [Sq.app_length child [] sp.wfc (by simp [hc0]), hc0]
+              have hnil : child.app [] = [] := List.eq_nil_of_length_eq_zero hca
+              have hle : (e1.app []).length = a.dim := by rw [Up.app_length e1 [] hwe.1 (by simp [he1]), hat]
+              have := sp.app [] (by simp [he1])
+              rw [hnil] at this
+              simp only [Sq.app, Up.app, sp.fde, hc0, he1, List.take_zero, List.drop_zero]
+              rw [List.take_left' hle, List.drop_left' hle, this]
+          · simp only [ne_eq, hc0, not_false_eq_true, if_true]
+            refine ⟨?_, ?_, ?_, ?_, ?_, ?_, ?_⟩
+            · simp [Up.wf, sp.wfe]; omega
+            · simp only [Sq.wf, Bool.and_eq_true, decide_eq_true_eq]
+              exact ⟨⟨⟨sp.wfc, hwc.1.1.2⟩, by omega⟩, hwc.2⟩
+            · simp [Up.td, Sq.dim, sp.tde]
+            · simp [Up.fd, Sq.dim, sp.dimc]
+            · simp [Up.fd, Sq.dim, sp.fde]
+            · simp only [Sq.flip, Up.flip]
+              have := sp.flip
+              revert this; cases edge.flip <;> cases child.flip <;> cases e1.flip <;> cases a.flip <;> cases b.flip <;> simp
+            · intro x hx
+              simp only [Up.fd] at hx
+              have hx1 : (x.take child.dim).length = child.dim := by simp; have := sp.dimc; omega
+              have hlc : (child.app (x.take child.dim)).length = edge.fd := by
+                rw [Sq.app_length child _ sp.wfc hx1, sp.fde]
+              have hx1' : (x.take e1.fd).length = e1.fd := by simp; omega
+              have hle : (e1.app (x.take e1.fd)).length = a.dim := by
+                rw [Up.app_length e1 _ hwe.1 hx1', hat]
+              simp only [Sq.app, Up.app]
+              rw [List.take_left' hlc, List.drop_left' hlc, List.take_left' hle, List.drop_left' hle]
+              have := sp.app (x.take child.dim) (by rw [hx1, sp.dimc])
+              rw [this, sp.dimc]
+        · rename_i hs
+          simp only [Option.some.injEq, Prod.mk.injEq] at h
+          obtain ⟨rfl, rfl⟩ := h
+          exact fallback_spec _ _ hwe' hwc' (by simp [Sq.dim, Up.td]; omega)
+      · simp at h
+    | identity _ => simp [Up.swapdown] at h
+    | index _ _ => simp [Up.swapdown] at h
+    | simplexChild _ _ => simp [Up.swapdown] at h
+    | generic _ _ => simp [Up.swapdown] at h
+  | tensorEdge2 n1 e2 ih =>
+    intro c e' c' hwe hwc hd h
+    have hwe' := hwe
+    simp only [Up.wf, Bool.and_eq_true, decide_eq_true_eq] at hwe
+    have htd := Up.td_eq e2 hwe.1
+    cases c with
+    | tensorChild a b =>
+      have hwc' := hwc
+      simp only [Sq.wf, Bool.and_eq_true, decide_eq_true_eq] at hwc
+      simp only [Up.td, Sq.dim] at hd
+      simp only [Up.swapdown] at h
+      split at h
+      · rename_i hbt
+        split at h
+        · rename_i edge child hs
+          simp only [Option.some.injEq, Prod.mk.injEq] at h
+          obtain ⟨rfl, rfl⟩ := h
+          have sp := ih b edge child hwe.1 hwc.1.1.2 hbt hs
+          have hn1 : n1 = a.dim := by omega
+          subst hn1
+          by_cases hc0 : child.dim = 0
+          · simp only [hc0, ne_eq, not_true_eq_false, if_false]
+            have hfl0 := Sq.flip_of_dim_zero child sp.wfc hc0
+            have he2 : e2.fd = 0 := by rw [← sp.dimc]; exact hc0
+            refine ⟨?_, hwc.1.1.1, ?_, ?_, ?_, ?_, ?_⟩
+            · simp [Up.wf, sp.wfe]; omega
+            · simp [Up.td, Sq.dim, sp.tde]
+            · simp [Up.fd, he2]
+            · simp [Up.fd, sp.fde, hc0]
+            · simp only [Sq.flip, Up.flip]
+              have := sp.flip
+              rw [hfl0] at this
+              revert this; cases edge.flip <;> cases e2.flip <;> cases a.flip <;> cases b.flip <;> cases (a.dim % 2 == 1) <;> simp
+            · intro x hx
+              simp only [Up.fd, he2] at hx
+              have hca : (child.app []).length = 0 := by rw [Sq.app_length child [] sp.wfc (by simp [hc0]), hc0]
+              have hnil : child.app [] = [] := List.eq_nil_of_length_eq_zero hca
+              have hla : (a.app x).length = a.dim := Sq.app_length a x hwc.1.1.1 (by simpa using hx)
+              have := sp.app [] (by simp [he2])
+              rw [hnil] at this
+              simp only [Up.app]
+              rw [List.take_of_length_le (l := a.app x) (by omega), List.drop_eq_nil_of_le (as := a.app x) (by omega),
+                List.take_of_length_le (l := x) (by omega), List.drop_eq_nil_of_le (as := x) (by omega), Sq.app,
+                List.take_left' (by simpa using hx), List.drop_left' (by simpa using hx), this]
+          · simp only [ne_eq, hc0, not_false_eq_true, if_true]
+            refine ⟨?_, ?_, ?_, ?_, ?_, ?_, ?_⟩
+            · simp [Up.wf, sp.wfe]; omega
+            · simp only [Sq.wf, Bool.and_eq_true, decide_eq_true_eq]
+              exact ⟨⟨⟨hwc.1.1.1, sp.wfc⟩, hwc.1.2⟩, by omega⟩
+            · simp [Up.td, Sq.dim, sp.tde]
+            · simp [Up.fd, Sq.dim, sp.dimc]
+            · simp [Up.fd, Sq.dim, sp.fde]
+            · simp only [Sq.flip, Up.flip]
+              have := sp.flip
+              revert this; cases edge.flip <;> cases child.flip <;> cases e2.flip <;> cases a.flip <;> cases b.flip <;> cases (a.dim % 2 == 1) <;> simp
+            · intro x hx
+              simp only [Up.fd] at hx
+              have hx1 : (x.take a.dim).length = a.dim := by simp; omega
+              have hx2 : (x.drop a.dim).length = child.dim := by simp; have := sp.dimc; omega
+              have hla : (a.app (x.take a.dim)).length = a.dim := Sq.app_length a _ hwc.1.1.1 hx1
+              simp only [Sq.app, Up.app]
+              rw [List.take_left' hla, List.drop_left' hla, List.take_left' hx1, List.drop_left' hx1]
+              have := sp.app (x.drop a.dim) (by rw [hx2, sp.dimc])
+              rw [this]
+        · rename_i hs
+          simp only [Option.some.injEq, Prod.mk.injEq] at h
+          obtain ⟨rfl, rfl⟩ := h
+          exact fallback_spec _ _ hwe' hwc' (by simp [Sq.dim, Up.td]; omega)
+      · simp at h
+    | identity _ => simp [Up.swapdown] at h
+    | index _ _ => simp [Up.swapdown] at h
+    | simplexChild _ _ => simp [Up.swapdown] at h
+    | generic _ _ => simp [Up.swapdown] at h
 
 end NutilsVerif.C11
